@@ -285,6 +285,7 @@ def load_fixtures(kind):
 
 def make_items(chk, ctx, only=None):
     items = {}
+    only = only or os.environ.get('VERIF_ONLY_ITEM')       # development aid: restrict a run to one fixture
     for name, body in load_fixtures(chk.FIXTURE_KIND).items():
         if only and name != only:
             continue
